@@ -947,6 +947,14 @@ func resolveModPath(fn *ssa.Function, path string) (*types.Named, int, bool) {
 			t = p.Type()
 		}
 	}
+	if t == nil && fn.Pkg != nil {
+		// a package-level variable (e.g. the token cache singleton)
+		if o := fn.Pkg.Pkg.Scope().Lookup(parts[0]); o != nil {
+			if v, ok := o.(*types.Var); ok {
+				t = v.Type()
+			}
+		}
+	}
 	if t == nil {
 		return nil, 0, false
 	}
@@ -2459,6 +2467,10 @@ func (fr *Frame) call(st *State, x *ssa.Call) bool {
 	case "unicode/utf8.RuneLen":
 		setRes(Val{fmt.Sprintf("(runelen %s)", fr.val(x.Call.Args[0]).T), x.Type()})
 		return true
+	case "strconv.FormatUint", "strconv.Itoa", "strconv.FormatInt":
+		// decimal rendering is injective: modelled as an uninterpreted function with a left inverse
+		setRes(Val{fmt.Sprintf("(fmtint %s)", fr.val(x.Call.Args[0]).T), x.Type()})
+		return true
 	case "strings.TrimSuffix", "strings.TrimPrefix":
 		// literal suffix/prefix only: the test is unrolled over its bytes
 		if k, ok := x.Call.Args[1].(*ssa.Const); ok && k.Value != nil && k.Value.Kind() == constant.String {
@@ -2559,6 +2571,27 @@ func (fr *Frame) applyContract(st *State, x *ssa.Call, callee *ssa.Function, fc 
 		phi := fr.evalClause(rq.Src, &Env{fr: fr, st: st, old: pre, binds: binds, noLocals: true})
 		fr.oblige(st, fmt.Sprintf("call[%s].requires.%s@%d", key, reqLabel(rq, k), c.prog.Fset.Position(x.Pos()).Line), phi, x.Pos())
 	}
+	assumeFunctional := func(res []Val) {
+		if fc.Functional == "" || len(res) == 0 {
+			return
+		}
+		sym, pts, rt := c.funcSym(callee, fc)
+		var as []string
+		for i, a := range args {
+			v := a
+			if st2, ok := pts[i].(*seqType); ok {
+				v = fr.toSeq(a, st2, &Env{fr: fr, st: pre, old: pre})
+			}
+			as = append(as, v.T)
+		}
+		app := fmt.Sprintf("(%s %s)", sym, strings.Join(as, " "))
+		r := res[0]
+		if st2, ok := rt.(*seqType); ok {
+			r = fr.toSeq(res[0], st2, &Env{fr: fr, st: st, old: pre})
+		}
+		fr.assume(st, fmt.Sprintf("(= %s %s)", r.T, app))
+		c.note("%s: %s is used as a function of its arguments (spec function %s; justified by the purity scan, not proved)", fr.fname, key, fc.Functional)
+	}
 	assumeEnsures := func() {
 		for _, en := range fc.Ensures {
 			if c.refuted[key+"#ensures."+en.Label] {
@@ -2647,6 +2680,7 @@ func (fr *Frame) applyContract(st *State, x *ssa.Call, callee *ssa.Function, fc 
 			fr.assumeAllocated(st, r, fr.allocTerm(st))
 		}
 		assumeEnsures()
+		assumeFunctional(res)
 		if len(res) > 0 {
 			setRes(res...)
 		}
@@ -2711,6 +2745,7 @@ func (fr *Frame) applyContract(st *State, x *ssa.Call, callee *ssa.Function, fc 
 		}
 	}
 	assumeEnsures()
+	assumeFunctional(res)
 	if len(res) > 0 {
 		setRes(res...)
 	}
